@@ -167,6 +167,30 @@ def run(tier):
     bad2 = c02.subset_mechanism(recs, "quick", corrupt=renumber_final)
     expect("C02 hook trace with a target set altered / final automaton renumbered", bad.get("traces_not_a_behaviour", 0) >= 1 and bad2.get("final_automaton_differs", 0) >= 1,
            good.get("traces_not_a_behaviour", 1) == 0 and good.get("final_automaton_differs", 1) == 0 and good.get("traces", 0) >= 1, results)
+    # C01/C12/C17 step level: a recorded step trace of the emitted bash function with one `subword_state` value altered is not a
+    # behaviour of BashStep.tla
+    import bashflow, bashdrv, vm, vmtrace
+    cs = [corpus.annotate_bash(corpus.finish(gen.case([("seq", [("sub", [L("--opt="), ("alt", [L("a"), L("abc"), C('__probe c1 p1 "$@"')])]), L("foo")])], [], shell="bash"), 1),
+                               bashdrv.PROBE_CLASSES)]
+    core.record("compile", cs)
+    cs = bashflow.emit_scripts(cs)
+    for c in cs:
+        c["vm"] = vm.tables(c["_script"], bashdrv.PROBE_CLASSES)
+    qs = {1: [{"words": ["--opt=abc"], "prefix": "f", "wb": "d"}, {"words": ["--opt=beta", "foo"], "prefix": "", "wb": "d"}, {"words": [], "prefix": "--opt=a", "wb": "d"}]}
+    recs2 = bashflow.execute(cs, qs)
+    for r in recs2:
+        r["vm"], r["_script"] = cs[0]["vm"], cs[0]["_script"]
+
+    def alter_step(recs):
+        for r in recs:
+            for t in r["traces"]:
+                k = [e for e in t["ev"] if e["e"] == "ss" and e["v"] > 0]
+                if k:
+                    k[-1]["v"] += 1
+    good = vmtrace.validate(recs2, 50, random.Random(1))
+    bad = vmtrace.validate(recs2, 50, random.Random(1), corrupt=alter_step)
+    expect("C01 bash step trace with a state altered", bad.get("step_traces_not_a_behaviour", 0) >= 1,
+           good.get("step_traces_not_a_behaviour", 1) == 0 and good.get("step_traces", 0) >= 3, results)
     failed = [r for r in results if not r[1]]
     print("selftest: %d of %d corruptions detected with their untouched twins accepted" % (len(results) - len(failed), len(results)))
     return 2 if failed else 0
